@@ -34,6 +34,8 @@ def assign_configs(behaviours, prof, sd):
         if any(op.get("split") == "all" for op in ops):
             b["block_size"] = 1
         b.update(extra)
+        if b.get("phys_list"):
+            b["phys"] = b["phys_list"][0]
         out.append(b)
     # the same behaviour under several physical configurations; copies of different
     # behaviours are adjacent so that --share-pairs couples trees with coinciding table ids
@@ -44,6 +46,8 @@ def assign_configs(behaviours, prof, sd):
             for i, b in enumerate(out):
                 c = dict(b)
                 c["phys"] = (i * rep + r + sd) % max(nphys, 1)
+                if b.get("phys_list"):
+                    c["phys"] = b["phys_list"][r % len(b["phys_list"])]
                 c["id"] = f"{b['id']}/{r}"
                 reps.append(c)
         out = reps
@@ -158,6 +162,12 @@ def _run(prop, tier, prof, replay_path, t0, sd, work):
                 import drive
                 ds = drive.fifo_behaviours(sd * 7919 + len(driven), g["count"], g.get("nkeys", prof["nkeys"]))
                 log(f"[{prop}] generated {len(ds)} behaviours (fifo) t={round(time.time()-t0)}s")
+                driven.extend(ds)
+                continue
+            if g["mode"] == "deep":
+                import drive
+                ds = drive.deep_behaviours(sd * 7919 + len(driven), g["count"], g.get("nkeys", prof["nkeys"]))
+                log(f"[{prop}] generated {len(ds)} behaviours (deep) t={round(time.time()-t0)}s")
                 driven.extend(ds)
                 continue
             if g["mode"] == "drive":
